@@ -180,7 +180,9 @@ static void scenario(ltrial_t *t, vf_rng_t *rg)
 		lctx_t *c = ctx_new(t, r, 1);
 		dispatch_set_context(ds, c);
 		dispatch_set_finalizer_f(ds, finalizer);
-		dispatch_source_set_event_handler_f(ds, src_handler);
+		/* block form: the copied block must be released when the source goes away (LSan) */
+		if (vf_rnd_n(rg, 2)) dispatch_source_set_event_handler(ds, ^{ src_handler(c); });
+		else dispatch_source_set_event_handler_f(ds, src_handler);
 		dispatch_source_set_timer(ds, dispatch_time(DISPATCH_TIME_NOW, (int64_t)vf_rnd_n(rg, 200000)), vf_rnd_n(rg, 2) ? 50000 : DISPATCH_TIME_FOREVER, 0);
 		dispatch_activate(ds);
 		if (vf_rnd_n(rg, 2)) vf_spin_ns(vf_rnd_n(rg, 300000));
@@ -192,9 +194,11 @@ static void scenario(ltrial_t *t, vf_rng_t *rg)
 		r = rec_new(t, "data source cancelled and released with merges in flight");
 		dispatch_source_t ds = dispatch_source_create(DISPATCH_SOURCE_TYPE_DATA_ADD, 0, 0, tq);
 		r->expect_marker = rp; r->must_follow = rp; r->ctx_generation = 1;
-		dispatch_set_context(ds, ctx_new(t, r, 1));
+		lctx_t *dc = ctx_new(t, r, 1);
+		dispatch_set_context(ds, dc);
 		dispatch_set_finalizer_f(ds, finalizer);
-		dispatch_source_set_event_handler_f(ds, src_handler);
+		if (vf_rnd_n(rg, 2)) { dispatch_source_set_event_handler(ds, ^{ src_handler(dc); }); dispatch_source_set_cancel_handler(ds, ^{ (void)dc; }); }
+		else dispatch_source_set_event_handler_f(ds, src_handler);
 		dispatch_activate(ds);
 		dispatch_release(tq);
 		for (int i = 0; i < 5; i++) dispatch_source_merge_data(ds, 1);
